@@ -66,7 +66,13 @@ Inductive op :=
 | OpPoll (n : nat)                                          (* nsync_note_is_notified (may notify an expired note) *)
 | OpAdd (n : nat) (delta : Z)                               (* nsync_counter_add *)
 | OpSignal (n : nat) | OpBroadcast (n : nat)                (* nsync_cv_signal / nsync_cv_broadcast *)
-| OpLock (m : nat) | OpUnlock (m : nat).                    (* the client's own use of the mutex it passes *)
+| OpLock (m : nat) | OpUnlock (m : nat)                     (* the client's own use of the mutex it passes *)
+| OpStale (u : nat).
+             (* environment (any thread, typically a pseudo-thread that does nothing else): a post on thread u's semaphore that no
+                waker of THIS model makes -- the per-thread waiter struct whose semaphore nsync_wait_n uses is the one the thread's
+                nsync_mu_lock sleeps use (e.g. on note_mu inside a ready_time callback); when such a sleeper sees its `waiting` flag
+                cleared before it calls P, the unlocker's V arrives later, possibly in the middle of the nsync_wait_n call: a stale
+                post, i.e. a spurious wake-up for that call (nsync_wait_n re-checks readiness after every P) *)
 
 Inductive pc :=
 | PIdle
@@ -372,6 +378,8 @@ Definition step (w : world) (t : nat) (timeout : bool) : world * ev * list rid :
       | OpUnlock m :: rest =>
           (set_thr (match muh w m with Some h => if Nat.eqb h t then set_muh w m None else w | None => w end) t (with_prog s rest),
            EvMuUnlock m, [])
+      | OpStale u :: rest =>
+          (set_thr (set_sem w u (S (sem w u))) t (with_prog s rest), EvNone, [])
       end
   | PFirst j =>
       let o := objat s j in
